@@ -13,7 +13,8 @@
 From Coq Require Import List.
 Import ListNotations.
 From WB Require Import Base.Str Base.Json Model.Key Model.Consts Model.Store Model.Match Model.Subs Model.Entry Model.Core
-  Proofs.SubsFacts Proofs.MatchFacts Proofs.CoreFacts Proofs.C01Proof Proofs.C03Proof Proofs.StreamProof Proofs.StreamAll Proofs.FoldProof Proofs.NoCrash Proofs.Unconditional.
+  Proofs.SubsFacts Proofs.MatchFacts Proofs.CoreFacts Proofs.C01Proof Proofs.C03Proof Proofs.StreamProof Proofs.StreamAll Proofs.FoldProof Proofs.FoldImport Proofs.NoCrash Proofs.Unconditional.
+From WB Require Import Proofs.GoodNames Proofs.TreeInv Proofs.StoreFacts.
 
 (* routing through the subscriber tree = the relation sub_match on the registered position *)
 Theorem C03_routing :
@@ -159,7 +160,7 @@ Proof. exact snapshot_agrees. Qed.
 Print Assumptions C03_snapshot_agrees.
 
 (* ... and stays so along every history of requests of every kind except publish, publish streams (which deliver a
-   value without storing it) and import *)
+   value without storing it) and import (for import see C03_fold_is_pget_all below) *)
 Theorem C03_fold_is_pget :
   forall os s sb F, s_pstate sb = true -> K s -> Registered s sb ->
     Forall quiet_kind os -> Forall (foreign sb) os -> no_crash_run s os ->
@@ -194,6 +195,51 @@ Theorem C03_fold_is_pget_safe :
     AgreeM sb (val_of (final (final init pre) os)) (fold_evs F (stream (s_inst sb) (final init pre) os)).
 Proof. exact fold_is_pget_safe. Qed.
 Print Assumptions C03_fold_is_pget_safe.
+
+(* ... imports included (Proofs/FoldImport.v): an import sends one event per entry of the imported tree; only publish
+   and publish streams -- which deliver a value without storing it -- stay out of the fold *)
+Theorem C03_fold_is_pget_all :
+  forall os s sb F, s_pstate sb = true -> K s -> Registered s sb ->
+    Forall store_kind os -> Forall import_ok os -> Forall (foreign sb) os -> no_crash_run s os ->
+    AgreeM sb (val_of s) F ->
+    AgreeM sb (val_of (final s os)) (fold_evs F (stream (s_inst sb) s os)).
+Proof. exact fold_is_pget_all. Qed.
+Print Assumptions C03_fold_is_pget_all.
+
+Theorem C03_fold_is_pget_all_safe :
+  forall pre os sb F, Forall safe_op (pre ++ os) -> s_pstate sb = true -> Registered (final init pre) sb ->
+    Forall store_kind os -> Forall (foreign sb) os -> AgreeM sb (val_of (final init pre)) F ->
+    AgreeM sb (val_of (final (final init pre) os)) (fold_evs F (stream (s_inst sb) (final init pre) os)).
+Proof. exact fold_is_pget_all_safe. Qed.
+Print Assumptions C03_fold_is_pget_all_safe.
+
+(* non-vacuity: a/# followed through a set, an import (a/b as it is, a/x new, c outside the pattern) and a delete *)
+Example C03_fold_import_nonvacuous :
+  let tree := Node None [([97], Node None [([98], Node (Some (Plain (JBool true))) []);
+                                           ([120], Node (Some (Plain (JNum [53]))) [])]);
+                         ([99], Node (Some (Plain (JNum [49]))) [])] in
+  let pre := [OPSubscribe 2 1 [97;47;35] false true] in
+  let sb := Subscriber 2 1 0 (kseg_parse [97;47;35]) false true in
+  let os := [OSet 1 [97;47;98] (JBool true) false; OImport (enc_persisted tree); ODelete 1 [97;47;98]] in
+  let s := final init pre in
+  Forall safe_op (pre ++ os) /\ Registered s sb /\ Forall store_kind os /\ Forall (foreign sb) os /\
+  stream 0 s os = [EPValue [([97;47;98], JBool true)]; EPValue [([97;47;98], JBool true)];
+                   EPValue [([97;47;120], JNum [53])]; EPDeleted [([97;47;98], JBool true)]] /\
+  map (fold_evs (fold_ev (fun _ => None) (EPValue [])) (stream 0 s os)) [[97;47;98]; [97;47;120]; [99]] =
+    [None; Some (JNum [53]); None] /\
+  do_pget (final s os) [97;47;35] = Ok [([97;47;120], JNum [53])].
+Proof.
+  cbv zeta. split.
+  { repeat (apply Forall_cons; [split; [cbn; try exact I; discriminate|]|]); try apply Forall_nil; try exact I.
+    intros other E. vm_compute in E. injection E as <-. split; [|split; [|reflexivity]].
+    - repeat (apply wfn_unfold; split; [repeat constructor; cbn; intuition discriminate|];
+              repeat (apply Forall_cons; cbn [snd]); try apply Forall_nil).
+    - cbn. unfold good_seg, Base.StrFacts.no_sep. repeat split; try reflexivity; intros H; cbn in H; intuition discriminate. }
+  split; [vm_compute; now left|].
+  split; [repeat (apply Forall_cons; [exact I|]); apply Forall_nil|].
+  split; [repeat (apply Forall_cons; [cbn; try exact I; discriminate|]); apply Forall_nil|].
+  repeat split; vm_compute; reflexivity.
+Qed.
 
 (* non-vacuity: a pattern subscription followed through a wildcard delete, an import, another client's
    subscription and session end with grave goods and last will *)
